@@ -48,8 +48,11 @@ CLAIMS = {
              "alignment they report (companion file C03_Anchored: C03_exactImpl_score, C03_anchored_score); 'never wraps around' (companion file C03_Bound): the scheme's value on any "
              "alignment of L distinct indices is at most (16 + B) L + B, B the largest bonus (C03_scheme_bound, every haystack and configuration), so for needles of up to 2519 "
              "characters every value, intermediate ones included, is below 2^16 and the code's u16 arithmetic is exact (C03_fits_u16, alignNoSat_of_short), which removes the "
-             "saturation side condition of the calculate_score theorem there (C03_calculateScore_eq_alignScore_short). Not theorems: that each call site passes a window ending at the last "
-             "match, and the equality of the compressed u16 matrix with the recurrence - both are the correspondence (implementation = model on every case), and the oracle "
+             "saturation side condition of the calculate_score theorem there (C03_calculateScore_eq_alignScore_short); companion file C03_Entry: on a tight window (what the prefilters "
+             "and greedy scans produce, C02_Greedy) the last reported index is the window's last position (tight_last), so calculate_score returns the scheme's value there with no "
+             "side condition left (C03_tight_score), and at the fuzzy_match entry point the contiguous shortcut and the matrix path return the scheme's value of the alignment "
+             "they report (C03_fuzzy_entry_ascii / _unicode: needles of 2 to 2519 characters, prefix preference off). Not theorems: that the greedy fallback's call site (scratch layout too large for the slab) passes such a window - the scans are proved to produce tight windows in "
+             "C02_Greedy but the composition is not stated for the score -, and the equality of the compressed u16 matrix with the recurrence - both are the correspondence (implementation = model on every case), and the oracle "
              "evaluates score = scheme on the reported indices for all six algorithms on every case; the u16 saturation for needles > 2520 characters is a KNOWN-FINDING."),
     "C04": dict(
         technique="Lean 4 theorems (early-exit soundness) + brute-force optimum oracle + model-equals-recurrence correspondence",
